@@ -160,6 +160,8 @@ func (x *exec) toTerm(v Val) *smt.Term {
 		unsupp("pointer into an owned structure used as a plain value")
 	case *ownedFieldLoc:
 		unsupp("address of a field of an owned node escapes")
+	case *localMap:
+		unsupp("a local map is used as a plain value")
 	}
 	panic(fmt.Sprintf("govc: value %T has no term", v))
 }
